@@ -345,6 +345,11 @@ class EscapeAnalysis:
                 if not dv[1]:
                     return False, f"argument `{norm(arg)}` can be the empty string"
                 return self._digits_bounded(f, call, arg)
+            for p in preds:
+                if p == f"{a}.isdigit()" or f"{a}.isdigit()" in p:
+                    return False, f"guarded only by {a}.isdigit(), which is true for characters int() rejects (e.g. superscript digits like '²')"
+                if f"{a}.isnumeric()" in p:
+                    return False, f"guarded only by {a}.isnumeric(), which is true for characters int() rejects"
         lang = self.str_lang(f, arg)
         if lang is None:
             if isinstance(arg, ast.Name) and any(d[0] in ("other",) for d in self._defs_of(f, arg.id)):
